@@ -168,8 +168,9 @@ func (d *Device) handleABSEvent(ie *input.InputEvent) {
 	}
 
 	// prevent from repeating value that was already sent before
-	lastValue := d.lastAnalogValue[ie.Source.Name][ie.Event.Code]
-	if lastValue == value {
+	// (the first event of an axis repeats nothing, whatever its value: an unsigned axis may well start at 0)
+	lastValue, seen := d.lastAnalogValue[ie.Source.Name][ie.Event.Code]
+	if seen && lastValue == value {
 		return
 	}
 	d.lastAnalogValue[ie.Source.Name][ie.Event.Code] = value
